@@ -97,6 +97,19 @@ def gemini_case(case):
             s1, G = g(P.copy(), A, return_grad=True)
         except Exception as e:  # noqa
             return {"v": [violation("raises_on_legal_input", {"error": repr(e)[:300]}, exc=type(e).__name__, **where)], "stats": {"evals": 1}}
+    if pkind in ("one_hot", "single_cluster", "empty_cluster") and np.all((P == 0) | (P == 1)):
+        # a hard partition may come as an integer or boolean indicator matrix: same finite score and gradient as its float copy
+        for dt in (np.int64, np.int8, bool, np.float32):
+            try:
+                with np.errstate(all="ignore"), warnings.catch_warnings():
+                    warnings.simplefilter("ignore")
+                    sd, Gd = g(P.astype(dt), A, return_grad=True)
+                okd = np.isfinite(sd) and np.all(np.isfinite(np.asarray(Gd, dtype=float))) and abs(float(sd) - float(s1)) <= 1e-5 * max(1.0, abs(float(s1))) + (1e-3 * np.sqrt(np.abs(A).max()) if dist == "mmd" and dt == np.float32 else 0)
+            except Exception as e:  # noqa
+                okd, sd = False, repr(e)[:120]
+            if not okd and np.isfinite(s1):
+                v.append(violation("non_finite_score", {"predictions_dtype": str(np.dtype(dt)), "score": sd if isinstance(sd, str) else float(sd), "float64_score": float(s1)}, **where))
+                break
     if not (np.isfinite(s0) and np.isfinite(s1)):
         v.append(violation("non_finite_score", {"score": float(s0), "with_gradient": float(s1), "P": P if n <= 6 else "seeded"}, **where))
     if not np.all(np.isfinite(G)):
